@@ -600,7 +600,12 @@ func (ex *Exec) assumeLoaded(st *State, v Term, t types.Type) {
 func (ex *Exec) havocHeap(st *State) {
 	st.pendingAll = true
 	ex.havocAll++
+	old := st.heap
 	st.heap = &HeapView{m: map[string]Term{}, epoch: ex.nextEpoch()}
+	for g := range ex.cs.Protected {
+		c := compGhost(g)
+		st.heap.m[c] = ex.comp(old, c, ex.cs.Ghost[g])
+	}
 }
 
 var epochCounter int
